@@ -130,8 +130,9 @@ static void ob_rollback(H<T>& h)
         full = A::run(w, rest, re, always_true<typename A::chk>());
         h.check("C15|rollback.resumed_run_equals_the_uninterrupted_one", texts_identical<T>(h, text_full, ser(full)));
     }
+    bool const only_other = h.get("other", 0) != 0;
     // two successive rollbacks on the same object equal the single rollback to the smaller iteration
-    for (std::size_t k1 = 0; k1 <= n; ++k1)
+    for (std::size_t k1 = 0; k1 <= n && !only_other; ++k1)
     {
         for (std::size_t k2 = 0; k2 <= k1; ++k2)
         {
@@ -143,7 +144,7 @@ static void ob_rollback(H<T>& h)
                 threw ? h.truth(false) : texts_identical<T>(h, ser(once), ser(twice)));
         }
     }
-    for (std::size_t k = 0; k <= n + 1; ++k)
+    for (std::size_t k = 0; k <= n + 1 && !only_other; ++k)
     {
         typename A::chk c = full;
         bool threw = false;
@@ -167,6 +168,28 @@ static void ob_rollback(H<T>& h)
         std::vector<std::size_t> rest(calls.begin() + k, calls.end());
         typename A::chk const resumed = A::run(w, rest, c, always_true<typename A::chk>());
         h.check("C15|rollback.resuming_reproduces_the_original_run", texts_identical<T>(h, text_full, ser(resumed)));
+    }
+    if (h.get("other", 0) != 0)
+    {
+        // after a rollback the discarded iterations leave no trace: continuing with ANOTHER integrand for two
+        // iterations gives what the run that stopped after k gives when continued the same way, and every
+        // iteration uses the refinement of the result before it
+        std::vector<std::size_t> const two{2, 1};
+        for (std::size_t k = 0; k < n; ++k)
+        {
+            typename A::chk c = full;
+            c.rollback(k);
+            std::vector<std::size_t> first(calls.begin(), calls.begin() + k);
+            w.tab.epoch = 0;
+            typename A::chk const ref = A::run(w, first, base, always_true<typename A::chk>());
+            w.tab.epoch = k + 1;
+            typename A::chk const cont_ref = A::run(w, two, ref, always_true<typename A::chk>());
+            typename A::chk const cont = A::run(w, two, c, always_true<typename A::chk>());
+            w.tab.epoch = 0;
+            h.check("C15,C07,C08|rollback.continuing_with_another_integrand_equals_continuing_the_run_that_stopped_after_k",
+                texts_identical<T>(h, ser(cont_ref), ser(cont)));
+            state_checks<T>(h, w, cont, ".after_rollback");
+        }
     }
 }
 
@@ -502,6 +525,34 @@ static void ob_poison(H<T>& h)
     h.check("C06|poison.results_identical_to_the_run_in_which_the_same_points_returned_zero", c);
     h.check("C06|poison.non_finite_evaluations_counted_as_non_zero_only", h.truth(poisoned == poisoned_calls));
     h.check("C06|poison.adaptation_identical_and_finite_in_all_later_iterations", adaptive_same<T>(h, a, b));
+
+    // what a user reports for a bin: the variance weighted combination over the iterations.  It is finite whenever every
+    // iteration that put a finite value into the bin has a positive variance there (iterations that only saw non-finite
+    // values for the bin must not take part)
+    if (!a.results().empty() && !a.results()[0].distributions().empty())
+    {
+        auto const comb = hep::accumulate<hep::weighted_with_variance>(a.results().begin(), a.results().end());
+        auto ok = h.truth(true);
+        for (std::size_t i = 0; i != comb.distributions().size(); ++i)
+        {
+            auto const& bins = comb.distributions()[i].results();
+            for (std::size_t k = 0; k != bins.size(); ++k)
+            {
+                auto premise = h.truth(true);
+                for (auto const& r : a.results())
+                {
+                    auto const& bin = r.distributions()[i].results()[k];
+                    if (bin.finite_calls() == 0 || bin.calls() < 2) continue;
+                    premise = premise && h.lt(T(0.0), bin.variance());
+                }
+                bool usable = true;
+                for (auto const& r : a.results()) if (r.distributions()[i].results()[k].calls() < 2) usable = false;
+                if (!usable) continue;
+                ok = ok && (!premise || (h.finite(bins[k].value()) && h.finite(bins[k].error())));
+            }
+        }
+        h.check("C06|poison.combined_bins_stay_finite_when_the_finite_contributions_have_positive_variance", ok);
+    }
 }
 
 
@@ -572,10 +623,70 @@ static void by_ob(H<T>& h)
     }
 }
 
+// ---- ob 11: the checkpoint object driven directly (add / pdf or channel_weights / rollback), one adaptive step from a
+// state with a discarded iteration (C07 C08 C15 C19): what was rolled back leaves no trace in the next grid / weights
+template <typename T>
+static void ob_object_vegas(H<T>& h)
+{
+    world<T> w(h);
+    vegas_alg<T>::params(w);
+    auto c = vegas_alg<T>::fresh(w);
+    c.dimensions(w.d);
+    sym::stub_engine g;
+    hep::vegas_pdf<T> const p0 = c.pdf();
+    std::size_t const nb = w.B * w.d;
+    hep::plain_result<T> const pr(std::vector<hep::distribution_result<T>>(), 2, 2, 2, T(1.0), T(1.0));
+    // an iteration that saw only zeros; the next grid is asked for; then the iteration is discarded
+    c.add(hep::vegas_result<T>(pr, p0, std::vector<T>(nb, T(0.0))), g);
+    hep::vegas_pdf<T> const p1 = c.pdf();
+    h.check("C07|object.all_zero_iteration_leaves_the_grid_as_it_was", same_pdf<T>(h, p1, p0));
+    c.rollback(0);
+    h.check("C15|object.rollback_to_zero_gives_the_first_grid", same_pdf<T>(h, c.pdf(), p0) && h.truth(c.results().empty()));
+    std::vector<T> data;
+    for (std::size_t i = 0; i != nb; ++i) data.push_back(h.input("data", 0.0, 1e6));
+    c.add(hep::vegas_result<T>(pr, p0, data), g);
+    hep::vegas_pdf<T> const expected = hep::vegas_refine_pdf(p0, w.alpha, data);
+    h.check("C07,C15,C19|object.next_grid_is_the_refinement_of_the_last_result_also_after_a_rollback", same_pdf<T>(h, c.pdf(), expected));
+    // asking twice gives the same grid, and a copy behaves like the original
+    auto const copy = c;
+    h.check("C07,C19|object.grid_is_a_function_of_the_results", same_pdf<T>(h, c.pdf(), copy.pdf()) && same_pdf<T>(h, c.pdf(), c.pdf()));
+}
+
+template <typename T>
+static void ob_object_multi(H<T>& h)
+{
+    world<T> w(h);
+    multi_alg<T>::params(w);
+    h.assume(h.lt(T(0.0), w.beta));    // beta = 0 means "no adaptation": data^0 = 1 even for an iteration of zeros (outside C08)
+    auto c = multi_alg<T>::fresh(w);
+    c.channels(w.C);
+    sym::stub_engine g;
+    std::vector<T> const w0 = c.channel_weights();
+    hep::plain_result<T> const pr(std::vector<hep::distribution_result<T>>(), 2, 2, 2, T(1.0), T(1.0));
+    c.add(hep::multi_channel_result<T>(pr, std::vector<T>(w.C, T(0.0)), w0), g);
+    std::vector<T> const w1 = c.channel_weights();
+    h.check("C08|object.all_zero_iteration_leaves_the_weights_as_they_were", same_vec<T>(h, w1, w0));
+    c.rollback(0);
+    h.check("C15|object.rollback_to_zero_gives_the_first_weights", same_vec<T>(h, c.channel_weights(), w0) && h.truth(c.results().empty()));
+    std::vector<T> data;
+    for (std::size_t i = 0; i != w.C; ++i) data.push_back(h.input("data", 0.0, 1e6));
+    c.add(hep::multi_channel_result<T>(pr, data, w0), g);
+    std::vector<T> const expected = hep::multi_channel_refine_weights(w0, data, w.minw, w.beta);
+    h.check("C08,C15,C19|object.next_weights_are_the_refinement_of_the_last_result_also_after_a_rollback",
+        same_vec<T>(h, c.channel_weights(), expected));
+    auto const copy = c;
+    h.check("C08,C19|object.weights_are_a_function_of_the_results", same_vec<T>(h, c.channel_weights(), copy.channel_weights()));
+}
+
 template <typename T>
 static void body(H<T>& h)
 {
     if (h.get("ob", 0) == 9) { ob_summary<T>(h); return; }
+    if (h.get("ob", 0) == 11)
+    {
+        if (h.get("alg", 1) == 1) ob_object_vegas<T>(h); else ob_object_multi<T>(h);
+        return;
+    }
     switch (h.get("alg", 0))
     {
     case 0: by_ob<T, plain_alg<T>>(h); break;
